@@ -7,6 +7,7 @@
 #include "ops_c13.c"
 #include "ops_c16.c"
 #include "ops_c02.c"
+#include "ops_c10.c"
 
 int main(void)
 {
@@ -21,6 +22,7 @@ int main(void)
     if (!done) done = dispatch_c13(&t);
     if (!done) done = dispatch_c16(&t);
     if (!done) done = dispatch_c02(&t);
+    if (!done) done = dispatch_c10(&t);
     if (!done) printf("R skip\n");
     printf("E\n");      /* end of this op: everything before a crash belongs to the op in flight */
     fflush(stdout);
